@@ -77,7 +77,7 @@ def run(c):
     # ---- RP: histories enumerated by TLC, executed on the real HostKeys
     plans = [(A, dict(maxfile=1, maxops=3)), (B, dict(maxfile=1, maxops=2))] if q else \
             [(A, dict(maxfile=2, maxops=2)), (A, dict(maxfile=1, maxops=4)), (B, dict(maxfile=1, maxops=3))]
-    records, meta = [], []
+    records, meta, n_enum = [], [], 0
     with tempfile.TemporaryDirectory(prefix="c41_", dir="/dev/shm" if os.path.isdir("/dev/shm") else None) as td:
         for uni, bound in plans:
             r = c.mc_holds("HostKeys", cfg_text(constants=consts(keep=True, fi=True, fs=True, **uni, **bound), invariants=INVS + ["Emit"]),
@@ -87,8 +87,10 @@ def run(c):
                 raise Machinery("no history emitted")
             # only maximal histories need running (every prefix is observed on the way)
             hists = [cs[1] for cs in cases if len(cs[1]) == bound["maxops"]]
-            if q and len(hists) > 500:
-                hists = rnd.sample(hists, 500)
+            n_enum += len(hists)
+            cap = 500 if q else 9000
+            if len(hists) > cap:
+                hists = rnd.sample(hists, cap)
             world = drv.HKWorld(uni["hosts"], uni["ktypes"], uni["keyids"], uni["salts"])
             for hist in hists:
                 ops = to_ops(hist)
@@ -111,7 +113,7 @@ def run(c):
     c.traces += len(records)
     tconst = consts(["h1"], [], ["rsa"], [1], 1, 1, 0, False, True, True)
     seen = {}
-    chunk = 4000
+    chunk = 6000
     for lo in range(0, len(records), chunk):
         part = records[lo:lo + chunk]
         res, _ = c.trace("HostKeys_Trace", part, cfg_text(spec="TSpec", constants=tconst, invariants=["Report"]), heap="8g")
@@ -137,9 +139,11 @@ def run(c):
     c.extra["stage_clock"] = stage
     c.extra["clauses_seen"] = seen
     c.extra["replayed_histories"] = n_rp
-    c.extra["exhaustive"] = True
-    c.rule = ("every history of load / load-again / add / delete TLC enumerates over universe A (1 host, plain + hashed name, 2 keys of one type) "
-              "and B (2 hosts, 2 types x 2 keys, lines of <= 2 names) to the stated depth, executed on paramiko.HostKeys with real keys; + seeded random "
-              "histories over 4 hosts x 2 salts x 4 key types x 3 keys with noise lines; distinct = distinct operation sequence; evaluations = operations executed")
+    c.extra["enumerated_maximal_histories"] = n_enum
+    c.extra["exhaustive"] = n_rp == n_enum       # model checking is exhaustive in both tiers; the replay only if nothing was sampled
+    c.rule = ("histories of load / load-again / add / delete TLC enumerates over universe A (1 host, plain + hashed name, 2 keys of one type) "
+              "and B (2 hosts, 2 types x 2 keys, lines of <= 2 names) to the stated depth (all of them when <= %d per run, otherwise a seeded sample of that size), executed on paramiko.HostKeys with real keys; + seeded random "
+              "histories over 4 hosts x 2 salts x 4 key types x 3 keys with noise lines; distinct = distinct operation sequence; evaluations = operations executed"
+              % (500 if q else 9000))
     c.assumptions = ["save() output is the public view of the store: names and keys of saved lines are mapped back by exact text",
                      "hashed names use HMAC-SHA1 with 20-byte salts as OpenSSH writes them"]
